@@ -76,10 +76,21 @@ func (o *Auditd) Read(ctx context.Context) error {
 
 	defer reassembler.Close()
 
+	// Stop and wait for the log parser before returning so that
+	// no audit event is processed once Read has returned.
+	ctx, stopParser := context.WithCancel(ctx)
+	parserExited := make(chan struct{})
+
+	defer func() {
+		stopParser()
+		<-parserExited
+	}()
+
 	go maintainReassemblerLoop(ctx, reassembler, reassemblerInterval)
 
 	parseAuditLogsDone := make(chan error, 1)
 	go func() {
+		defer close(parserExited)
 		parseAuditLogsDone <- parseAuditLogs(ctx, o.Audits, reassembler)
 	}()
 
@@ -135,6 +146,10 @@ func maintainReassemblerLoop(ctx context.Context, reassembler *libaudit.Reassemb
 // to reass until the provided context is marked as done.
 func parseAuditLogs(ctx context.Context, lines <-chan string, reass *libaudit.Reassembler) error {
 	for {
+		if err := ctx.Err(); err != nil {
+			return err
+		}
+
 		select {
 		case <-ctx.Done():
 			return ctx.Err()
